@@ -4,7 +4,8 @@ use std::path::Path;
 /// Every string literal passed to `evaluate(` / `then_evaluate(` in quiver-tests/tests/*.rs.
 pub fn test_sources() -> Vec<(String, String)> {
     let mut out = vec![];
-    let dir = Path::new("/repo/quiver-tests/tests");
+    let dirs = format!("{}/quiver-tests/tests", crate::repo());
+    let dir = Path::new(&dirs);
     let mut files: Vec<_> = std::fs::read_dir(dir)
         .map(|d| d.filter_map(|e| e.ok()).map(|e| e.path()).collect())
         .unwrap_or_default();
@@ -91,7 +92,7 @@ pub fn test_sources() -> Vec<(String, String)> {
 /// std/*.qv module sources: (module name, text).
 pub fn std_modules() -> Vec<(String, String)> {
     let mut out = vec![];
-    let mut files: Vec<_> = std::fs::read_dir("/repo/std")
+    let mut files: Vec<_> = std::fs::read_dir(format!("{}/std", crate::repo()))
         .map(|d| d.filter_map(|e| e.ok()).map(|e| e.path()).collect())
         .unwrap_or_default();
     files.sort();
@@ -108,7 +109,7 @@ pub fn std_modules() -> Vec<(String, String)> {
 /// examples/*.qv
 pub fn examples() -> Vec<(String, String)> {
     let mut out = vec![];
-    let mut files: Vec<_> = std::fs::read_dir("/repo/examples")
+    let mut files: Vec<_> = std::fs::read_dir(format!("{}/examples", crate::repo()))
         .map(|d| d.filter_map(|e| e.ok()).map(|e| e.path()).collect())
         .unwrap_or_default();
     files.sort();
@@ -124,7 +125,7 @@ pub fn examples() -> Vec<(String, String)> {
 
 /// Fenced ```quiver blocks of docs/spec.md.
 pub fn spec_blocks() -> Vec<String> {
-    let Ok(text) = std::fs::read_to_string("/repo/docs/spec.md") else { return vec![] };
+    let Ok(text) = std::fs::read_to_string(format!("{}/docs/spec.md", crate::repo())) else { return vec![] };
     let mut out = vec![];
     let mut cur: Option<String> = None;
     for line in text.lines() {
